@@ -1247,6 +1247,13 @@ void generate(sim::Rng &rng, sim::Plan &p, bool thorough)
     }
   if (bag.empty())
     bag.push_back("push_back");
+  if (huge)
+  {
+    // grow by whole blocks, then shrink: count constructor, resize, range erase, clear, reserve
+    bag.clear();
+    for (char const *o : {"ctor_n", "ctor_n", "resize", "resize", "resize", "erase", "erase", "erase", "clear", "reserve", "insertn", "shrink", "push_back", "destroy"})
+      bag.push_back(o);
+  }
   unsigned const len = static_cast<unsigned>(huge ? rng.range(2, 8) : rng.range(1, 60));
   // start from every constructor
   {
@@ -1255,7 +1262,8 @@ void generate(sim::Rng &rng, sim::Plan &p, bool thorough)
     op.set("s", 0).set("n", static_cast<long>(rng.below(20))).set("k", static_cast<long>(rng.below(3))).set("a", static_cast<long>(rng.below(2)));
     p.ops.push_back(op);
   }
-  unsigned const fault_pct = faulty ? static_cast<unsigned>(rng.range(2, 15)) : 0;
+  // (huge runs are rare and short: when they inject faults, they inject many)
+  unsigned const fault_pct = faulty ? (huge ? 45U : static_cast<unsigned>(rng.range(2, 15))) : 0;
   for (unsigned i = 0; i < len; ++i)
   {
     sim::Op op(rng.pick(bag));
@@ -1291,7 +1299,7 @@ void generate(sim::Rng &rng, sim::Plan &p, bool thorough)
     }
     else
     {
-      op.set("s", static_cast<long>(rng.below(VSLOTS)));
+      op.set("s", static_cast<long>(huge && rng.chance(3, 4) ? 0 : rng.below(VSLOTS)));
       if (n == "swap" || n == "move_ctor" || n == "move_assign" || n == "compare" || n == "insertr")
         op.set("t", static_cast<long>(rng.below(VSLOTS)));
       if (n == "swap")
@@ -1309,7 +1317,8 @@ void generate(sim::Rng &rng, sim::Plan &p, bool thorough)
       if (n == "insert1" || n == "insertn" || n == "insertr" || n == "erase1")
         op.set("pos", static_cast<long>(rng.below(64)));
       if (n == "erase")
-        op.set("first", static_cast<long>(rng.below(64))).set("len", static_cast<long>(rng.below(64)));
+        // (in runs with large counts the erased range is large too: most of a big vector goes)
+        op.set("first", static_cast<long>(rng.below(64))).set("len", static_cast<long>(rng.below(static_cast<std::uint64_t>(64 * scale))));
       if (n == "push_back" || n == "insert1" || n == "insertn" || n == "resize")
         if (rng.chance(1, 3))
           op.set("alias", 1).set("ai", static_cast<long>(rng.below(64)));
@@ -1322,7 +1331,7 @@ void generate(sim::Rng &rng, sim::Plan &p, bool thorough)
       else if (reader_op && rng.chance(1, 2))
         op.sets("fault", "reader:" + std::to_string(rng.range(1, 6)));
       else
-        op.sets("fault", "alloc:" + std::to_string(rng.range(1, 3)));
+        op.sets("fault", "alloc:" + std::to_string(huge ? 1 : rng.range(1, 3)));
     }
     p.ops.push_back(op);
   }
